@@ -28,7 +28,7 @@ PROPS = {
     "C10": {
         "rules": [r_panic.run, r_panic.run_errprop, r_panic.run_narrow_arith,
                   kind_scope("dictionary::connector", "dictionary::mapper"), r_cand.unkcover,
-                  r_panic.run_tok],
+                  r_panic.run_tok, r_map.verifystrict],
         "explanation": "PANIC: every potential panic or silent-wrap site (assert terminators for "
                        "bounds/overflow/division/shift, calls to unwrap/expect/panic!/assert!/"
                        "indexing/copy_from_slice/chunks/..., narrowing `as` casts) in the "
@@ -197,7 +197,7 @@ PROPS = {
                      "kind propagation",
     },
     "C01": {
-        "rules": [r_token.access, r_token.dispatch, r_cand.cand, r_cand.unkfall, r_viterbi.traceback,
+        "rules": [r_token.access, r_token.tokiter, r_token.dispatch, r_cand.cand, r_cand.unkfall, r_viterbi.traceback,
                   r_reset.run_tokens, r_panic.run_narrow_dict, r_cand.unkcover, r_panic.run_tok,
                   r_misc.spaceopt],
         "explanation": "ACCESS: every Token accessor is a projection of the one stored (end, node) "
@@ -253,7 +253,7 @@ PROPS = {
         "technique": "MIR must-pass-through and loop-shape rules, path-sensitive boolean analysis",
     },
     "C08": {
-        "rules": [r_map.run_user, r_map.run_compose, r_cand.cand, r_token.dispatch,
+        "rules": [r_map.run_user, r_map.run_compose, r_map.verifystrict, r_cand.cand, r_token.dispatch,
                   kind_scope("dictionary::lexicon", "dictionary::Dictionary", "dictionary::connector")],
         "explanation": "MAPKEEP: a user lexicon is translated by the stored mapper, then verified "
                        "against the dictionary's connector (failure returns Err), then installed; "
@@ -401,7 +401,8 @@ _ADDED = {
             "scorer) is derived from the length of its own table in the decoder, the builder and "
             "Default.", "cfg-twin provenance rule"),
     "C09": ("CODEC-DERIVED as for C05.", "cfg-twin provenance rule"),
-    "C06": ("ROWRANGE: every slice a RawConnector method takes from a U31x8 feature table is "
+    "C06": ("MAPPARSE: ConnIdMapper::parse sends id 0, an already assigned slot and an "
+            "out-of-range id to Err. ROWRANGE: every slice a RawConnector method takes from a U31x8 feature table is "
             "aligned to rows of feat_template_size vectors ([k*w..(k+1)*w], k*w.., chunks of w).",
             "symbolic index-range shape rule"),
     "C07": ("ROWRANGE as for C06 (the accessors used by cost()). NARROW over the connector "
@@ -420,7 +421,7 @@ _ADDED = {
             "shape, unk.def size). UNKCOVER: the builder must reject a char.def category that has no unk.def entry "
             "(otherwise a character of that category that no lexicon entry covers cannot start "
             "any candidate and tokenization panics).", "absence-of-guard rule"),
-    "C10": ("TOKPANIC as for C01 (second clause of C10: a returned dictionary tokenizes every "
+    "C10": ("VERIFYSTRICT: verify() rejects exactly the ids with count - id <= 0. TOKPANIC as for C01 (second clause of C10: a returned dictionary tokenizes every "
             "string without panicking or reading out of range). UNKCOVER as for C01 (`every reachable character able to start some candidate`). "
             "KIND over the connectors and the mapper (loop bounds and tables of the two sides "
             "are not crossed in the remapping loops). NARROW-ARITH: no overflow-checked arithmetic in an 8/16-bit type below "
